@@ -344,11 +344,11 @@ pub(crate) mod kani_verif {
     from_harness!(c03_from_l2, 2, Some([6u8, 5u8]));
     // @h name=c03_from_l2_mixed props=C03,C07,C01,C05,C13,C10 tier=thorough kind=proved cfg=L2w8 timeout=2400 funcs=HssPrivateKey::from contract="same, L=2, heights (2,25)"
     from_harness!(c03_from_l2_mixed, 2, Some([1u8, 9u8]));
-    // @h name=c03_from_l2_sym props=C03,C07,C01,C05,C13,C10 tier=thorough kind=proved cfg=L2w8 timeout=7200 funcs=HssPrivateKey::from contract="same, L=2, all height pairs (symbolic)"
+    // @h name=c03_from_l2_sym props=C03,C07,C01,C05,C13,C10 tier=extended kind=proved cfg=L2w8 timeout=7200 funcs=HssPrivateKey::from contract="same, L=2, all height pairs (symbolic)"
     from_harness!(c03_from_l2_sym, 2, None);
     // @h name=c03_from_l3 props=C03,C07,C01,C05,C13,C10 tier=thorough kind=proved cfg=L3w8 timeout=7200 funcs=HssPrivateKey::from contract="same, L=3, heights (5,10,5)"
     from_harness!(c03_from_l3, 3, Some([5u8, 6u8, 5u8]));
-    // @h name=c03_from_l8 props=C03,C07,C01,C05,C13,C10 tier=thorough kind=proved cfg=w8 timeout=14400 funcs=HssPrivateKey::from contract="same, L=8, heights (5,5,5,5,5,5,5,10)"
+    // @h name=c03_from_l8 props=C03,C07,C01,C05,C13,C10 tier=extended kind=proved cfg=w8 timeout=14400 funcs=HssPrivateKey::from contract="same, L=8, heights (5,5,5,5,5,5,5,10)"
     from_harness!(c03_from_l8, 8, Some([5u8, 5, 5, 5, 5, 5, 5, 6]));
 
     // ================================================================== C10/C11: aux front end (get_expanded_aux_data)
